@@ -73,9 +73,24 @@ func (a linExpr) String() string {
 	return strings.Join(parts, "+")
 }
 
+// layEnv maps a helper's parameters to the caller's argument values, so that
+// length symbols are named after the outermost function's values.
+type layEnv map[ssa.Value]ssa.Value
+
+func (e layEnv) subst(v ssa.Value) ssa.Value {
+	for i := 0; i < 8; i++ {
+		w, ok := e[core.Strip(v)]
+		if !ok {
+			return v
+		}
+		v = w
+	}
+	return v
+}
+
 // lenSym names the length symbol of a value (stable across loads).
-func lenSym(v ssa.Value) string {
-	v = core.Strip(v)
+func lenSym(v ssa.Value, env layEnv) string {
+	v = core.Strip(env.subst(v))
 	if s, ok := core.ConstString(v); ok {
 		return fmt.Sprintf("#%d", len(s))
 	}
@@ -88,8 +103,8 @@ func lenSym(v ssa.Value) string {
 	return "len(" + d + ")"
 }
 
-func linEval(v ssa.Value, depth int) linExpr {
-	if depth > 10 {
+func linEval(v ssa.Value, env layEnv, depth int) linExpr {
+	if depth > 12 {
 		return linExpr{}
 	}
 	if c, ok := core.ConstInt(v); ok {
@@ -99,23 +114,47 @@ func linEval(v ssa.Value, depth int) linExpr {
 	case *ssa.BinOp:
 		switch x.Op {
 		case token.ADD:
-			return linEval(x.X, depth+1).add(linEval(x.Y, depth+1), 1)
+			return linEval(x.X, env, depth+1).add(linEval(x.Y, env, depth+1), 1)
 		case token.SUB:
-			return linEval(x.X, depth+1).add(linEval(x.Y, depth+1), -1)
+			return linEval(x.X, env, depth+1).add(linEval(x.Y, env, depth+1), -1)
 		}
 	case *ssa.Call:
 		if core.CalleeName(x) == "builtin:len" {
-			a := x.Call.Args[0]
+			a := env.subst(x.Call.Args[0])
 			if s, ok := core.ConstString(a); ok {
 				return linConst(int64(len(s)))
 			}
-			// len of the buffer itself is handled by the caller via bufLen
-			return linExpr{syms: map[string]int64{lenSym(a): 1}, ok: true}
+			return linExpr{syms: map[string]int64{lenSym(a, env): 1}, ok: true}
+		}
+		// a module helper returning an offset (one return statement, linear in its inputs)
+		if cal := x.Common().StaticCallee(); cal != nil && len(cal.Blocks) > 0 && cal.Signature.Results().Len() == 1 {
+			rets := core.Returns(cal)
+			if len(rets) == 1 {
+				return linEval(rets[0].Results[0], bindEnv(env, x), depth+1)
+			}
 		}
 	case *ssa.Convert, *ssa.ChangeType:
-		return linEval(core.Strip(v), depth+1)
+		return linEval(core.Strip(v), env, depth+1)
 	}
 	return linExpr{}
+}
+
+// bindEnv extends env with the callee's parameters bound to the call's arguments.
+func bindEnv(env layEnv, c ssa.CallInstruction) layEnv {
+	out := layEnv{}
+	for k, v := range env {
+		out[k] = v
+	}
+	cal := c.Common().StaticCallee()
+	if cal == nil {
+		return out
+	}
+	for i, a := range c.Common().Args {
+		if i < len(cal.Params) {
+			out[cal.Params[i]] = env.subst(a)
+		}
+	}
+	return out
 }
 
 type segment struct {
@@ -147,84 +186,90 @@ func layoutCheck(p *core.Prog, fn *ssa.Function) (ok bool, desc string, segs []s
 	return layoutCheckBuf(p, fn, bufs[len(bufs)-1])
 }
 
-// layoutCheckBuf checks one buffer.
+// layoutCheckBuf checks one buffer. Writes made by module helpers that are
+// handed the buffer (or a tail of it) are collected too, with the helper's
+// parameters bound to the arguments.
 func layoutCheckBuf(p *core.Prog, fn *ssa.Function, buf *ssa.MakeSlice) (ok bool, desc string, segs []segment, total linExpr) {
-	total = linEval(buf.Len, 0)
+	total = linEval(buf.Len, nil, 0)
 	if !total.ok {
 		return false, "buffer length is not linear in input lengths", nil, total
 	}
-	// substitute len(buf) by total when evaluating offsets
-	eval := func(v ssa.Value) linExpr {
-		e := linEval(v, 0)
-		if !e.ok {
-			return e
+	var collect func(fn *ssa.Function, bufVal ssa.Value, base linExpr, env layEnv, depth int)
+	collect = func(fn *ssa.Function, bufVal ssa.Value, base linExpr, env layEnv, depth int) {
+		isBufLen := func(v ssa.Value) bool {
+			c, ok := v.(*ssa.Call)
+			return ok && core.CalleeName(c) == "builtin:len" && c.Call.Args[0] == bufVal
 		}
-		bs := "len(" + valDesc(buf) + ")"
-		_ = bs
-		return e
-	}
-	isBufLen := func(v ssa.Value) bool {
-		c, ok := v.(*ssa.Call)
-		return ok && core.CalleeName(c) == "builtin:len" && c.Call.Args[0] == ssa.Value(buf)
-	}
-	var evalOff func(v ssa.Value, d int) linExpr
-	evalOff = func(v ssa.Value, d int) linExpr {
-		if d > 10 {
-			return linExpr{}
-		}
-		if isBufLen(v) {
-			return total
-		}
-		if bo, ok := v.(*ssa.BinOp); ok && (bo.Op == token.ADD || bo.Op == token.SUB) {
-			sign := int64(1)
-			if bo.Op == token.SUB {
-				sign = -1
+		var evalOff func(v ssa.Value, d int) linExpr
+		evalOff = func(v ssa.Value, d int) linExpr {
+			if d > 10 {
+				return linExpr{}
 			}
-			return evalOff(bo.X, d+1).add(evalOff(bo.Y, d+1), sign)
-		}
-		return eval(v)
-	}
-	for _, b := range fn.Blocks {
-		for _, in := range b.Instrs {
-			switch x := in.(type) {
-			case *ssa.Call:
-				if core.CalleeName(x) != "builtin:copy" {
-					continue
+			if isBufLen(v) {
+				return total.add(base, -1)
+			}
+			if bo, ok := v.(*ssa.BinOp); ok && (bo.Op == token.ADD || bo.Op == token.SUB) {
+				sign := int64(1)
+				if bo.Op == token.SUB {
+					sign = -1
 				}
-				dst, src := x.Call.Args[0], x.Call.Args[1]
-				start := linConst(0)
-				switch d := dst.(type) {
-				case *ssa.MakeSlice:
-					if d != buf {
+				return evalOff(bo.X, d+1).add(evalOff(bo.Y, d+1), sign)
+			}
+			return linEval(v, env, 0)
+		}
+		// dstOf: is v the buffer or a tail slice of it? returns the start offset (relative to the whole buffer)
+		dstOf := func(v ssa.Value) (linExpr, bool) {
+			if v == bufVal {
+				return base, true
+			}
+			if sl, ok := v.(*ssa.Slice); ok && sl.X == bufVal && sl.High == nil {
+				if sl.Low == nil {
+					return base, true
+				}
+				return base.add(evalOff(sl.Low, 0), 1), true
+			}
+			return linExpr{}, false
+		}
+		for _, b := range fn.Blocks {
+			for _, in := range b.Instrs {
+				switch x := in.(type) {
+				case *ssa.Call:
+					if core.CalleeName(x) == "builtin:copy" {
+						start, isDst := dstOf(x.Call.Args[0])
+						if !isDst {
+							continue
+						}
+						src := x.Call.Args[1]
+						var l linExpr
+						if s, ok := core.ConstString(src); ok {
+							l = linConst(int64(len(s)))
+						} else {
+							l = linExpr{syms: map[string]int64{lenSym(src, env): 1}, ok: true}
+						}
+						segs = append(segs, segment{start, start.add(l, 1), "copy(" + lenSym(src, env) + ")", p.InstrPos(x)})
 						continue
 					}
-				case *ssa.Slice:
-					if d.X != ssa.Value(buf) {
+					cal := x.Common().StaticCallee()
+					if cal == nil || len(cal.Blocks) == 0 || depth >= 3 {
 						continue
 					}
-					if d.Low != nil {
-						start = evalOff(d.Low, 0)
+					for i, a := range x.Common().Args {
+						if start, isDst := dstOf(a); isDst && i < len(cal.Params) {
+							collect(cal, cal.Params[i], start, bindEnv(env, x), depth+1)
+						}
 					}
-				default:
-					continue
+				case *ssa.Store:
+					ia, ok := x.Addr.(*ssa.IndexAddr)
+					if !ok || ia.X != bufVal {
+						continue
+					}
+					start := base.add(evalOff(ia.Index, 0), 1)
+					segs = append(segs, segment{start, start.add(linConst(1), 1), "byte(" + valDesc(x.Val) + ")", p.InstrPos(x)})
 				}
-				var l linExpr
-				if s, ok := core.ConstString(src); ok {
-					l = linConst(int64(len(s)))
-				} else {
-					l = linExpr{syms: map[string]int64{lenSym(src): 1}, ok: true}
-				}
-				segs = append(segs, segment{start, start.add(l, 1), "copy(" + lenSym(src) + ")", p.InstrPos(x)})
-			case *ssa.Store:
-				ia, ok := x.Addr.(*ssa.IndexAddr)
-				if !ok || ia.X != ssa.Value(buf) {
-					continue
-				}
-				start := evalOff(ia.Index, 0)
-				segs = append(segs, segment{start, start.add(linConst(1), 1), "byte(" + valDesc(x.Val) + ")", p.InstrPos(x)})
 			}
 		}
 	}
+	collect(fn, buf, linConst(0), layEnv{}, 0)
 	if len(segs) == 0 {
 		return false, "no writes into the buffer", segs, total
 	}
